@@ -383,3 +383,32 @@ Definition dump_sort_decl (v : variant) (name : string) (arity : nat) : string :
 Definition dump_decl (v : variant) (env : list symdecl) (d : symdecl) (isConstant : bool) : string :=
   (if isConstant then "(declare-const " else "(declare-fun ") ++ symToString v env d ++ " ("
   ++ String.concat "" (map (fun s => sortToString v s ++ " ") (sd_args d)) ++ ") " ++ sortToString v (sd_ret d) ++ ")".
+
+(* what a get-value request denotes, as an s-expression over normalised tokens (the reader's view of the source) *)
+Definition const_tok (text : string) : token :=
+  if str_existsb (Ascii.eqb c_dot) text then TDec text else TNum text.
+
+Definition head_sexp (h : ahead) : sexp :=
+  match h with
+  | H_sym name => sym_tok name
+  | H_as name s => SList [SAtom (TRes "as"); sym_tok name; sort_sexp s]
+  end.
+
+Fixpoint ast_sexp (a : ast) : sexp :=
+  match a with
+  | A_const text => SAtom (const_tok text)
+  | A_sym name => sym_tok name
+  | A_as name s => SList [SAtom (TRes "as"); sym_tok name; sort_sexp s]
+  | A_app h args => SList (head_sexp h :: map ast_sexp args)
+  | A_bang t name => SList [SAtom (TRes "!"); ast_sexp t; SAtom (TKey "named"); sym_tok name]
+  | A_let bs body =>
+    SList [SAtom (TRes "let"); SList (map (fun b => SList [sym_tok (fst b); ast_sexp (snd b)]) bs); ast_sexp body]
+  end.
+
+(* the text reads back (under cfg) as exactly this s-expression, |x| and x identified *)
+Definition reads_as (cfg : lexcfg) (text : string) (e : sexp) : Prop :=
+  option_map (map norm_sexp) (read_sexps cfg text) = Some [e].
+
+(* the same for terms: what print_term's output has to denote *)
+Definition sym_sexp (v : variant) (env : list symdecl) (d : symdecl) (qualified : bool) : sexp :=
+  if qualified then SList [SAtom (TRes "as"); sym_tok (sd_name d); sort_sexp (sd_ret d)] else sym_tok (sd_name d).
